@@ -399,6 +399,17 @@ def create_sparse_by_pair_marker_file(
     return tmp_output_path
 
 
+def _chunks_for_length(n_elements):
+    """
+    HDF5 chunk shape for a 1-D dataset with n_elements elements
+    (None, i.e. not chunked, if the dataset is empty; HDF5 does
+    not accept zero-length chunks)
+    """
+    if n_elements == 0:
+        return None
+    return (min(1000000, n_elements),)
+
+
 def _merge_sparse_by_pair_files(
         tmp_path_dict,
         n_genes,
@@ -447,7 +458,7 @@ def _merge_sparse_by_pair_files(
             'up_gene_idx',
             shape=(n_up_indices,),
             dtype=gene_idx_dtype,
-            chunks=(min(1000000, n_up_indices),))
+            chunks=_chunks_for_length(n_up_indices))
         dst_grp.create_dataset(
             'down_pair_idx',
             shape=(n_pairs+1,),
@@ -456,7 +467,7 @@ def _merge_sparse_by_pair_files(
             'down_gene_idx',
             shape=(n_down_indices,),
             dtype=gene_idx_dtype,
-            chunks=(min(1000000, n_down_indices),))
+            chunks=_chunks_for_length(n_down_indices))
 
         col0_values = list(tmp_path_dict.keys())
         col0_values.sort()
